@@ -528,6 +528,33 @@ def shrunk(m, seed, scale):
     return out
 
 
+def _wedges_close(xyz, faces, tol=1e-3):
+    """True if around every node the corner angles of its faces add up to at most a full turn (+tol) and exactly a full turn where the
+    node is interior - i.e. the faces do not overlap.  Convex-hull triangulations of nearly coplanar clusters can violate this."""
+    import math as _m
+
+    tot = np.zeros(len(xyz))
+    cnt = {}
+    for f in faces:
+        k = len(f)
+        for j, v in enumerate(f):
+            a, b, c = xyz[f[j - 1]], xyz[v], xyz[f[(j + 1) % k]]
+            u, w = a - b, c - b
+            u, w = u - np.dot(u, b) * b, w - np.dot(w, b) * b
+            ang = _m.atan2(float(np.dot(np.cross(w, u), b)), float(np.dot(u, w)))  # from next to previous, counter-clockwise about b
+            tot[v] += ang % (2 * _m.pi)
+            for e in ((f[j - 1], v), (v, f[(j + 1) % k])):
+                cnt[frozenset(e)] = cnt.get(frozenset(e), 0) + 1
+    if np.any(tot > 2 * _m.pi + tol):
+        return False
+    interior = np.ones(len(xyz), dtype=bool)
+    for e, c in cnt.items():
+        if c != 4:  # every edge is visited twice per face
+            for v in e:
+                interior[v] = False
+    return bool(np.all(np.abs(tot[interior] - 2 * _m.pi) < tol))
+
+
 def refined(n, seed, radius):
     """Closed Delaunay mesh, locally refined: a well-spread background plus one or two tight clusters of `radius` radians
     (down to 1e-6): triangles of a few metres next to triangles of thousands of kilometres."""
@@ -558,7 +585,8 @@ def refined(n, seed, radius):
             P = P[np.sort(hull.vertices)]
             hull = ConvexHull(P)
         if hull.equations[:, 3].max() < (-0.2 if _try < 500 else -0.05) and len(hull.vertices) == len(P) and len(P) >= 8:
-            break
+            if _wedges_close(P, [_orient(P, list(sm)) for sm in hull.simplices]):
+                break  # (hulls of nearly coplanar clusters occasionally come out with overlapping triangles: drawn again)
     else:
         raise RuntimeError("no refined point set found")
     faces = [_orient(P, list(s)) for s in hull.simplices]
